@@ -5,7 +5,7 @@
 EXTENDS ImageOps, TLC, Json, IOUtils
 VARIABLES l, R, st
 Lines == TLCGet(7)
-NoRoot == [shape |-> <<1>>, T |-> 0, comps |-> 0, timekind |-> "none"]
+NoRoot == [shape |-> <<1>>, T |-> 0, comps |-> 0, timekind |-> "none", dtype |-> "float64"]
 Init == TLCSet(7, ndJsonDeserialize(IOEnv.TRACE_FILE)) /\ l = 1 /\ R = NoRoot /\ st = InitState(NoRoot)
 
 Enabled(e) == CASE e.op = "sub" -> SubEnabled(st, e.roi)
@@ -24,9 +24,16 @@ StackVerdict(e) ==    \* e.orig[i], e.back[i]: projections <<time, date, tagsum>
 
 Step(e) ==
   IF e.op = "root" THEN
-     /\ R' = [shape |-> e.shape, T |-> e.T, comps |-> e.comps, timekind |-> e.timekind]
-     /\ st' = InitState([shape |-> e.shape, T |-> e.T, comps |-> e.comps, timekind |-> e.timekind])
+     /\ R' = [shape |-> e.shape, T |-> e.T, comps |-> e.comps, timekind |-> e.timekind, dtype |-> e.dtype]
+     /\ st' = InitState([shape |-> e.shape, T |-> e.T, comps |-> e.comps, timekind |-> e.timekind, dtype |-> e.dtype])
      /\ LET m == Mismatch(R', st', e.child) IN IF m = {} THEN TRUE ELSE PrintT(<<"BAD", e.tid, l, m>>)
+  ELSE IF e.op = "diffroi" THEN       \* physical box = voxel box of its converted corners (both raise on an empty box, or neither)
+     /\ UNCHANGED <<R, st>>
+     /\ LET f == (IF e.raised_phys # e.raised_vox THEN {"PhysicalBoxTotalLikeVoxelBox"} ELSE {})
+                  \cup (IF e.raised_phys = 0 /\ e.raised_vox = 0 /\ e.same_data = 0 THEN {"PhysicalBoxSelectsVoxelBox"} ELSE {})
+                  \cup (IF e.raised_phys = 0 /\ e.raised_vox = 0 /\ e.same_place = 0 THEN {"PhysicalPlacement"} ELSE {})
+                  \cup (IF e.raised_phys = 0 /\ e.raised_vox = 0 /\ e.same_meta = 0 THEN {"PayloadLayout"} ELSE {})
+        IN IF f = {} THEN TRUE ELSE PrintT(<<"BAD", e.tid, l, f>>)
   ELSE IF e.op = "stack" THEN
      /\ UNCHANGED <<R, st>>
      /\ (IF e.raised = 1 THEN PrintT(<<"BAD", e.tid, l, "StackTotal">>)
